@@ -661,14 +661,14 @@ def shrink(case, fails):
 # ------------------------------------------------------------------------------- the check
 
 
-def campaign(run: Run, tier, seed, which):
+def campaign(run: Run, tier, seed, which, cases_override=None):
     """runs the scripts, the correspondence and the oracle; which = clauses reported as this property's"""
     rng = random.Random(seed)
-    cases = systematic()
-    n_random = 200 if tier == 'quick' else 6000
+    cases = systematic() if cases_override is None else cases_override
+    n_random = (200 if tier == 'quick' else 6000) if cases_override is None else 0
     maxlen = 12 if tier == 'quick' else 30
     cases += [random_case(rng, maxlen) for _ in range(n_random)]
-    if tier != 'quick':
+    if tier != 'quick' and cases_override is None:
         # small scope: every pair of stimuli after every prefix that reaches OPENSENT or later
         small = [['recv', k] for k in ('OpenOk', 'Keepalive', 'UpdateOk', 'Notification', 'UnknownType', 'OpenBadAs', 'UpdateBadNlri', 'Refresh')] + [
             ['eof', None], ['incoming', None], ['connect_ok', None], ['tick', 0.3], ['silence', 70], ['teardown', 4], ['remove', None], ['refresh', None]]
@@ -676,7 +676,9 @@ def campaign(run: Run, tier, seed, which):
             for a in small:
                 for b in small:
                     for c in (small if pname in ('RO', 'MN') else [None]):
-                        steps = [list(x) for x in PREFIX[pname]] + [list(a) + [0.05], list(b) + [0.3]] + ([list(c)] if c else []) + CONT[:2]
+                        # (an API teardown is noticed by the main loop within 100 ms: the next stimulus comes later)
+                        ga = 0.15 if a[0] in ('teardown', 'remove') else 0.05
+                        steps = [list(x) for x in PREFIX[pname]] + [list(a) + [ga], list(b) + [0.3]] + ([list(c)] if c else []) + CONT[:2]
                         cases.append({'name': f'small:{pname}', 'steps': steps})
     results = run_all(cases)
     errors = [(c, r) for c, r in zip(cases, results) if 'error' in r]
@@ -695,7 +697,7 @@ def campaign(run: Run, tier, seed, which):
         items.append((i, steps))
         for p in problems:
             glue.append((i, p))
-    coq = evaluate(run, items, 'hpeer')
+    coq = evaluate(run, items, 'hpeer', per=40 if tier == 'quick' else 160)
     # correspondence
     mism = []
     outside = []
